@@ -467,6 +467,17 @@ class Interp:
 
     def inplace(self, op, cur, val):
         """`x op= v`: numpy / torch arrays are updated in place (aliases see it), everything else rebinds."""
+        if isinstance(cur, V.TorchElem):
+            # in-place operator on a 0-dim torch view: the element of the base tensor is written (every later read of the base
+            # sees it) and the name stays a view of that element
+            arr, idx = cur.arr, cur.idx
+            if arr.writes != cur.stamp:
+                raise OutOfSubset("in-place operator on a 0-dim tensor view whose base was written since the view was taken")
+            new = self.binop(op, Sym(cur.t), val)
+            if isinstance(new, SymArr):
+                raise OutOfSubset("in-place operator on a 0-dim tensor view with an array operand")
+            arr[tuple(Sym(i) for i in idx)] = new
+            return V.TorchElem(lift(new), arr, idx, arr.writes)
         if isinstance(cur, SymArr) and not cur.pylist and cur.base is not cur:
             cur.detach_from_base()
         new = self.binop(op, cur, val)
